@@ -335,7 +335,7 @@ func (v *view) safeForParsePart() bool {
 		return true // divides by zero before allocating
 	}
 	// deliberately not relying on storrent refusing unaligned piece lengths
-	return (t+pl-1)/pl <= 1<<21
+	return (t+pl-1)/pl <= 1<<19
 }
 
 func ceilDiv(a *big.Int, b int64) *big.Int {
@@ -562,7 +562,7 @@ func judgeTorrent(c *vk.C, in []byte, cls string) outcome {
 	return o
 }
 
-var heapSample = []metrics.Sample{{Name: "/memory/classes/heap/objects:bytes"}}
+var heapSample = []metrics.Sample{{Name: "/memory/classes/heap/objects:bytes"}, {Name: "/memory/classes/total:bytes"}}
 
 // relieve: the bencode dependency allocates a string's announced length before
 // reading it (up to 2 GiB from a mutated length prefix).  That is not judged
@@ -571,6 +571,9 @@ var heapSample = []metrics.Sample{{Name: "/memory/classes/heap/objects:bytes"}}
 // at once.
 func relieve(c *vk.C) {
 	metrics.Read(heapSample)
+	if heapSample[1].Value.Kind() == metrics.KindUint64 {
+		c.R.Max("max:go_runtime_mapped_mb", int64(heapSample[1].Value.Uint64()>>20))
+	}
 	if heapSample[0].Value.Kind() == metrics.KindUint64 && heapSample[0].Value.Uint64() > 256<<20 {
 		c.Count("forced_gc_after_big_allocation", 1)
 		runtime.GC()
@@ -1457,40 +1460,48 @@ func systematic() []sysCase {
 			return l
 		}
 		shapes := map[string]func(s *tspec){
-			"no trackers":                 func(s *tspec) { del(s.top, "announce") },
-			"announce only":               func(s *tspec) {},
-			"announce empty":              func(s *tspec) { s.top.Set("announce", "") },
-			"announce unsupported":        func(s *tspec) { s.top.Set("announce", "wss://t.example/a") },
-			"announce unparsable":         func(s *tspec) { s.top.Set("announce", "http://a\nb/") },
-			"announce int":                func(s *tspec) { s.top.Set("announce", int64(1)) },
-			"list single":                 func(s *tspec) { del(s.top, "announce"); s.top.Set("announce-list", tl([]any{c1})) },
-			"list single + announce":      func(s *tspec) { s.top.Set("announce-list", tl([]any{c1})) },
-			"list 2x2":                    func(s *tspec) { s.top.Set("announce-list", tl([]any{c0, c1}, []any{c2, cleanTrackers[4]})) },
-			"list one tier of three":      func(s *tspec) { s.top.Set("announce-list", tl([]any{c0, c1, c2})) },
-			"list three tiers of one":     func(s *tspec) { s.top.Set("announce-list", tl([]any{c0}, []any{c1}, []any{c2})) },
-			"list empty + announce":       func(s *tspec) { s.top.Set("announce-list", tl()) },
-			"list empty":                  func(s *tspec) { del(s.top, "announce"); s.top.Set("announce-list", tl()) },
-			"list one empty tier":         func(s *tspec) { del(s.top, "announce"); s.top.Set("announce-list", tl([]any{})) },
-			"list [[\"\"]]":               func(s *tspec) { del(s.top, "announce"); s.top.Set("announce-list", tl([]any{""})) },
-			"list empty tier first":       func(s *tspec) { s.top.Set("announce-list", tl([]any{}, []any{c1})) },
-			"list bad first":              func(s *tspec) { s.top.Set("announce-list", tl([]any{"http://a\nb/"}, []any{c1})) },
-			"list bad in tier":            func(s *tspec) { s.top.Set("announce-list", tl([]any{"", "wss://x/", c1, "\x00"}, []any{c2})) },
-			"list unsupported only":       func(s *tspec) { s.top.Set("announce-list", tl([]any{"wss://x/"})) },
-			"list of strings":             func(s *tspec) { s.top.Set("announce-list", []any{c1}) },
-			"list is a string":            func(s *tspec) { s.top.Set("announce-list", c1) },
-			"list duplicates":             func(s *tspec) { s.top.Set("announce-list", tl([]any{c1, c1}, []any{c1})) },
-			"url-list string":             func(s *tspec) { s.top.Set("url-list", cleanSeeds[0]) },
-			"url-list list":               func(s *tspec) { s.top.Set("url-list", []any{cleanSeeds[0], cleanSeeds[1]}) },
-			"url-list empty list":         func(s *tspec) { s.top.Set("url-list", []any{}) },
-			"url-list empty string":       func(s *tspec) { s.top.Set("url-list", "") },
-			"url-list mixed":              func(s *tspec) { s.top.Set("url-list", []any{"ftp://x/", cleanSeeds[2], "", "http://%/"}) },
-			"url-list int":                func(s *tspec) { s.top.Set("url-list", int64(1)) },
-			"url-list list of ints":       func(s *tspec) { s.top.Set("url-list", []any{int64(1)}) },
-			"httpseeds list":              func(s *tspec) { s.top.Set("httpseeds", []any{cleanSeeds[3]}) },
-			"httpseeds string":            func(s *tspec) { s.top.Set("httpseeds", cleanSeeds[3]) },
-			"url-list + httpseeds":        func(s *tspec) { s.top.Set("url-list", []any{cleanSeeds[0]}); s.top.Set("httpseeds", []any{cleanSeeds[0], cleanSeeds[4]}) },
-			"httpseeds unsupported":       func(s *tspec) { s.top.Set("httpseeds", []any{"ftp://x/"}) },
-			"everything":                  func(s *tspec) { s.top.Set("announce-list", tl([]any{c0, c1}, []any{c2})); s.top.Set("url-list", []any{cleanSeeds[0], cleanSeeds[1]}); s.top.Set("httpseeds", []any{cleanSeeds[2]}); s.top.Set("creation date", int64(1700000000)) },
+			"no trackers":             func(s *tspec) { del(s.top, "announce") },
+			"announce only":           func(s *tspec) {},
+			"announce empty":          func(s *tspec) { s.top.Set("announce", "") },
+			"announce unsupported":    func(s *tspec) { s.top.Set("announce", "wss://t.example/a") },
+			"announce unparsable":     func(s *tspec) { s.top.Set("announce", "http://a\nb/") },
+			"announce int":            func(s *tspec) { s.top.Set("announce", int64(1)) },
+			"list single":             func(s *tspec) { del(s.top, "announce"); s.top.Set("announce-list", tl([]any{c1})) },
+			"list single + announce":  func(s *tspec) { s.top.Set("announce-list", tl([]any{c1})) },
+			"list 2x2":                func(s *tspec) { s.top.Set("announce-list", tl([]any{c0, c1}, []any{c2, cleanTrackers[4]})) },
+			"list one tier of three":  func(s *tspec) { s.top.Set("announce-list", tl([]any{c0, c1, c2})) },
+			"list three tiers of one": func(s *tspec) { s.top.Set("announce-list", tl([]any{c0}, []any{c1}, []any{c2})) },
+			"list empty + announce":   func(s *tspec) { s.top.Set("announce-list", tl()) },
+			"list empty":              func(s *tspec) { del(s.top, "announce"); s.top.Set("announce-list", tl()) },
+			"list one empty tier":     func(s *tspec) { del(s.top, "announce"); s.top.Set("announce-list", tl([]any{})) },
+			"list [[\"\"]]":           func(s *tspec) { del(s.top, "announce"); s.top.Set("announce-list", tl([]any{""})) },
+			"list empty tier first":   func(s *tspec) { s.top.Set("announce-list", tl([]any{}, []any{c1})) },
+			"list bad first":          func(s *tspec) { s.top.Set("announce-list", tl([]any{"http://a\nb/"}, []any{c1})) },
+			"list bad in tier":        func(s *tspec) { s.top.Set("announce-list", tl([]any{"", "wss://x/", c1, "\x00"}, []any{c2})) },
+			"list unsupported only":   func(s *tspec) { s.top.Set("announce-list", tl([]any{"wss://x/"})) },
+			"list of strings":         func(s *tspec) { s.top.Set("announce-list", []any{c1}) },
+			"list is a string":        func(s *tspec) { s.top.Set("announce-list", c1) },
+			"list duplicates":         func(s *tspec) { s.top.Set("announce-list", tl([]any{c1, c1}, []any{c1})) },
+			"url-list string":         func(s *tspec) { s.top.Set("url-list", cleanSeeds[0]) },
+			"url-list list":           func(s *tspec) { s.top.Set("url-list", []any{cleanSeeds[0], cleanSeeds[1]}) },
+			"url-list empty list":     func(s *tspec) { s.top.Set("url-list", []any{}) },
+			"url-list empty string":   func(s *tspec) { s.top.Set("url-list", "") },
+			"url-list mixed":          func(s *tspec) { s.top.Set("url-list", []any{"ftp://x/", cleanSeeds[2], "", "http://%/"}) },
+			"url-list int":            func(s *tspec) { s.top.Set("url-list", int64(1)) },
+			"url-list list of ints":   func(s *tspec) { s.top.Set("url-list", []any{int64(1)}) },
+			"httpseeds list":          func(s *tspec) { s.top.Set("httpseeds", []any{cleanSeeds[3]}) },
+			"httpseeds string":        func(s *tspec) { s.top.Set("httpseeds", cleanSeeds[3]) },
+			"url-list + httpseeds": func(s *tspec) {
+				s.top.Set("url-list", []any{cleanSeeds[0]})
+				s.top.Set("httpseeds", []any{cleanSeeds[0], cleanSeeds[4]})
+			},
+			"httpseeds unsupported": func(s *tspec) { s.top.Set("httpseeds", []any{"ftp://x/"}) },
+			"everything": func(s *tspec) {
+				s.top.Set("announce-list", tl([]any{c0, c1}, []any{c2}))
+				s.top.Set("url-list", []any{cleanSeeds[0], cleanSeeds[1]})
+				s.top.Set("httpseeds", []any{cleanSeeds[2]})
+				s.top.Set("creation date", int64(1700000000))
+			},
 		}
 		names := make([]string, 0, len(shapes))
 		for k := range shapes {
@@ -2222,7 +2233,7 @@ type pdesc struct {
 func head(b []byte) string { return fmt.Sprintf("%q", clip(b, 120)) }
 
 func runParse(r *vk.Run) {
-	r.Note("geometry_cap", "generated valid geometries: total length <= 2^36, <= 2^22 blocks, <= 2^21 pieces; inputs whose claimed geometry is larger are run in the part 'huge' only")
+	r.Note("geometry_cap", "generated valid geometries: total length <= 2^36, <= 2^22 blocks, <= 2^19 pieces; inputs whose claimed geometry is larger are run in the part 'huge' only")
 	idx := 0
 	sys := systematic()
 	for _, sc := range sys {
